@@ -52,7 +52,10 @@ META = {
         "water records and commutes with any line-wise parser (its two hypotheses about the parser are checked on the "
         "real pdb reader + main.drop_water for every generated record kind). Proved over C02's model of set_termini/"
         "set_state and the state tables generated from dat/ (PARSE): the flags change the terminus state of N-/C-flagged "
-        "residues only (never NPRO, never an unflagged residue), and for ALL residue lists in which every residue is "
+        "residues only (never NPRO, never an unflagged residue); a residue that is both ends of its chain is never "
+        "changed by --neutralc and goes N->NEUTRAL-N under --neutraln only (per-flag attribution, name level and in the "
+        "generated table; its charges are not fully parameterised in PARSE, so its charge shift is explored by runs on "
+        "one- and two-residue chains only), and for ALL residue lists in which every residue is "
         "unchanged or a terminus going N->NEUTRAL-N / C->NEUTRAL-C (NEUTRAL-CPRO excluded) the exact total charge moves "
         "by -1 per neutralised N-terminus and +1 per neutralised C-terminus. NOT proved, explored on the real code only: "
         "that each stage really is a function of the options the translator lists (trusted translator, cross-checked by "
@@ -98,6 +101,8 @@ THEOREMS = [
     "C09_neutral_changes_only_termini",
     "C09_neutral_internal_unchanged",
     "C09_neutral_nonvacuous",
+    "C09_neutral_both_ends_attribution",
+    "C09_neutral_both_ends_same_parameters",
 ]
 # theorems whose statement mentions the generated table
 GENERATED_THEOREMS = ["C09_generated_obligation", "C09_generated_noninterference", "C09_ffout_after_params", "C09_neutral_rows_match_prefix", "C09_neutral_shift", "C09_neutral_changes_only_termini", "C09_neutral_internal_unchanged", "C09_neutral_nonvacuous"]
@@ -932,10 +937,39 @@ def neutral_structure(ctx, X, with_water):
     return {"id": f"nt-{X}-GLY-{X}/ALA-{X}-SER{'+2HOH' if with_water else ''}", "pdb": B.to_pdb(atoms), "nterm": sorted(nterm), "cterm": sorted(cterm)}
 
 
-def group_residues(atoms):
+def neutral_short_structure(ctx, X, Y, variant):
+    """Chains whose amino part has length 1 and 2 next to a reference tetrapeptide.
+    A one-residue chain is BOTH an N- and a C-terminus: each flag may only act through the role it
+    is allowed to touch.  variant 'hidden': a lone OXT-bearing residue ahead of a peptide under the
+    same chain ID (the hidden chain end); 'water': trailing waters inside the one-residue chain."""
+    import numpy as np
+
+    B = _B()
+    ref = B.build_peptide(["GLY", "ALA", "SER", "GLY"], chain="A", start=1)
+    one = B.build_peptide([X], chain="C", start=11, origin=(0.0, 25.0, 0.0))
+    two = B.build_peptide([X, Y], chain="D", start=21, origin=(0.0, 0.0, 25.0))
+    atoms = ref + one
+    # residue numbers are unique in the file: residues are keyed by number only (pdb2pqr gives the
+    # first segment of a split chain a fresh chain ID)
+    nterm = {("", "1"), ("", "11"), ("", "21")}
+    cterm = {("", "4"), ("", "11"), ("", "22")}
+    if variant == "water":
+        atoms = atoms + B.waters(2, around=ref + one + two, rng=np.random.default_rng(3), chain="C", start=12, min_dist=6.0)
+    atoms = atoms + two
+    if variant == "hidden":
+        lone = B.build_peptide([X], chain="E", start=31, origin=(30.0, 0.0, 0.0))
+        tail = B.build_peptide(["ALA", Y, "GLY"], chain="E", start=40, origin=(30.0, 25.0, 0.0))
+        atoms = atoms + lone + tail
+        nterm |= {("", "31"), ("", "40")}
+        cterm |= {("", "31"), ("", "42")}
+    return {"id": f"nt-short-{variant}:A=GLY-ALA-SER-GLY/C={X}/D={X}-{Y}" + (f"/E={X}(OXT)+ALA-{Y}-GLY@40" if variant == "hidden" else ""),
+            "pdb": B.to_pdb(atoms), "nterm": sorted(nterm), "cterm": sorted(cterm), "by_resseq": True}
+
+
+def group_residues(atoms, by_resseq=False):
     g = {}
     for a in atoms:
-        g.setdefault((a["chain"], a["resseq"]), []).append(a)
+        g.setdefault(("" if by_resseq else a["chain"], a["resseq"]), []).append(a)
     return g
 
 
@@ -956,25 +990,48 @@ def min_dist(ra, rb):
     return best
 
 
-def neutral_compare(st, base_atoms, opt_atoms, flags):
-    """List of (signature, what) violations for one neutral run against the base run."""
+def neutral_compare(st, base_atoms, opt_atoms, flags, single=None):
+    """List of (signature, what) violations for one neutral run against the base run.
+
+    Attribution per flag: --neutraln may change a residue only through its N-terminal role (-1),
+    --neutralc only through its C-terminal role (+1).  A residue that is both ends of its chain
+    (one-residue chain) may be changed by either flag, but each only by its own amount; with both
+    flags its shift must be the sum of the two single-flag shifts (`single` = {'n': {res: delta},
+    'c': {...}} observed in the single-flag runs)."""
     out = []
-    gb, go = group_residues(base_atoms), group_residues(opt_atoms)
+    gb, go = group_residues(base_atoms, st.get("by_resseq", False)), group_residues(opt_atoms, st.get("by_resseq", False))
     nterm, cterm = {tuple(x) for x in st["nterm"]}, {tuple(x) for x in st["cterm"]}
     key = lambda r: [(a["name"], a["resname"], a["num"]) for a in r]  # noqa: E731
     changed = [k for k in gb if k not in go or key(gb[k]) != key(go[k])] + [k for k in go if k not in gb]
     allowed = (nterm if "n" in flags else set()) | (cterm if "c" in flags else set())
     neutralised = [k for k in changed if k in allowed]
-    info = {"neutralised": neutralised, "changed": changed}
+    info = {"neutralised": neutralised, "changed": changed, "delta": {}}
+    want_total = 0.0
     for k in changed:
         if k in allowed:
-            want = -1.0 if k in nterm else 1.0
+            both = k in nterm and k in cterm
+            if flags == "n":
+                want, role = -1.0, "N"
+            elif flags == "c":
+                want, role = 1.0, "C"
+            elif both:
+                role = "N+C"
+                want = None
+                if single is not None and "n" in single and "c" in single:
+                    want = single["n"].get(k, 0.0) + single["c"].get(k, 0.0)
+            else:
+                want, role = (-1.0, "N") if k in nterm else (1.0, "C")
             if k not in go or k not in gb:
                 out.append(({"site": "Biomolecule.set_termini/apply_patch", "option": flags, "field": "terminal-residue-missing"}, f"terminal residue {k} disappeared"))
                 continue
             d = res_charge(go[k]) - res_charge(gb[k])
+            info["delta"][k] = d
+            ends = "both-ends" if both else "one-end"
+            if want is None:
+                want = min((-1.0, 0.0, 1.0), key=lambda w: abs(d - w))
+            want_total += want
             if abs(d - want) > 2e-3:
-                out.append(({"site": "Biomolecule.set_termini/apply_patch", "option": flags, "field": "terminus-charge-shift", "condition": f"{gb[k][0]['resname']}:{'N' if k in nterm else 'C'}-terminus"}, f"neutralised {'N' if k in nterm else 'C'}-terminus {gb[k][0]['resname']} {k}: charge {res_charge(gb[k]):.4f} -> {res_charge(go[k]):.4f} (shift {d:+.4f}, expected {want:+.0f})"))
+                out.append(({"site": "Amino.set_state/Biomolecule.apply_patch", "option": flags, "field": "terminus-charge-shift", "condition": f"{role}-terminus:{ends}"}, f"{gb[k][0]['resname']} {k} ({ends} of its chain) under --neutral{flags}: charge {res_charge(gb[k]):.4f} -> {res_charge(go[k]):.4f} (shift {d:+.4f}; the {role}-terminal role allows {want:+.0f}" + ("" if flags != "nc" or not both else " = sum of the single-flag shifts") + ")"))
             continue
         # a residue the option must not touch
         if k not in gb or k not in go:
@@ -991,11 +1048,10 @@ def neutral_compare(st, base_atoms, opt_atoms, flags):
         else:
             what = "atom-names" if [(a["name"], a["resname"]) for a in b] != [(a["name"], a["resname"]) for a in o] else ("charge-or-radius" if not same_shape else "heavy-atom-coordinates")
             out.append(({"site": "Biomolecule.set_termini/apply_patch", "option": flags, "field": f"{where}-residue-changed:{what}"}, f"{where} residue {b[0]['resname']} {k} changed ({what}) under --neutral{flags}"))
-    # total charge: exactly -1 per neutralised N-terminus, +1 per neutralised C-terminus
-    want = -sum(1 for k in neutralised if k in nterm) + sum(1 for k in neutralised if k in cterm)
+    # total charge: exactly -1 per N-terminus neutralised by --neutraln, +1 per C-terminus neutralised by --neutralc
     tot = res_charge(opt_atoms) - res_charge(base_atoms)
-    if abs(tot - want) > 5e-3:
-        out.append(({"site": "Biomolecule.set_termini/apply_patch", "option": flags, "field": "total-charge-shift"}, f"total charge shift {tot:+.4f}, expected {want:+d} for {len(neutralised)} neutralised termini"))
+    if abs(tot - want_total) > 5e-3:
+        out.append(({"site": "Amino.set_state/Biomolecule.apply_patch", "option": flags, "field": "total-charge-shift"}, f"total charge shift {tot:+.4f}, expected {want_total:+.0f} (sum of the shifts the flags may cause on the {len(neutralised)} termini that changed)"))
     return out, info
 
 
@@ -1004,8 +1060,9 @@ def ffname_step_tie(ctx, st, base, res, flags, info):
     residue's ffname is either unchanged or goes Nxxx -> NEUTRAL-Nxxx (an N-terminus under
     --neutraln) / Cxxx -> NEUTRAL-Cxxx (a C-terminus under --neutralc): the step relation of the theorem."""
     try:
-        r1 = [(str(r.chain_id), str(r.res_seq), r.ffname) for r in base["result"][2].residues]
-        r2 = [(str(r.chain_id), str(r.res_seq), r.ffname) for r in res["result"][2].residues]
+        byr = st.get("by_resseq", False)
+        r1 = [("" if byr else str(r.chain_id), str(r.res_seq), r.ffname) for r in base["result"][2].residues]
+        r2 = [("" if byr else str(r.chain_id), str(r.res_seq), r.ffname) for r in res["result"][2].residues]
     except Exception as e:  # noqa: BLE001
         ctx.broke("correspondence-broken", "cannot read residue ffnames of the real runs", f"{type(e).__name__}: {e}")
         return
@@ -1038,6 +1095,7 @@ def neutral_case(ctx, st, X):
         ctx.count(f"neutral:base-run-failed:{X}")
         return
     ba = parse_pqr(base["pqr_text"], False)
+    single = {}
     for flags, extra in (("n", ["--neutraln"]), ("c", ["--neutralc"]), ("nc", ["--neutraln", "--neutralc"])):
         res = run_real(ctx, st["pdb"], base_args + extra)
         if res["pqr_text"] is None:
@@ -1046,22 +1104,30 @@ def neutral_case(ctx, st, X):
             ctx.evaluated(("neutral", st["id"], flags), False)
             continue
         oa = parse_pqr(res["pqr_text"], False)
-        viol, info = neutral_compare(st, ba, oa, flags)
+        viol, info = neutral_compare(st, ba, oa, flags, single)
+        if flags in ("n", "c"):
+            single[flags] = info["delta"]
         ffname_step_tie(ctx, st, base, res, flags, info)
         ctx.evaluated(("neutral", st["id"], flags), len(info["neutralised"]) > 0)
         ctx.count(f"neutral:{flags}:termini-neutralised={len(info['neutralised'])}")
         for k in (set(map(tuple, st["nterm"])) if "n" in flags else set()) | (set(map(tuple, st["cterm"])) if "c" in flags else set()):
             if k not in info["neutralised"]:
-                g = group_residues(ba).get(k)
+                g = group_residues(ba, st.get("by_resseq", False)).get(k)
                 ctx.count(f"neutral:{flags}:terminus-not-neutralised:{g[0]['resname'] if g else '?'}")
         for sig, what in viol:
-            ctx.fail(sig, f"--neutral{flags} (PARSE, {st['id']}): {what}", {"kind": "neutral", "structure": st["id"], "pdb": st["pdb"], "nterm": st["nterm"], "cterm": st["cterm"], "flags": flags, "signature": sig, "detail": what})
+            ctx.fail(sig, f"--neutral{flags} (PARSE, {st['id']}): {what}", {"kind": "neutral", "structure": st["id"], "pdb": st["pdb"], "nterm": st["nterm"], "cterm": st["cterm"], "by_resseq": st.get("by_resseq", False), "flags": flags, "signature": sig, "detail": what})
 
 
 def search_neutral(ctx, high):
     water_for = set(ctx.rng.sample(STANDARD_AA, 4)) | {"SER"}
     for X in STANDARD_AA:
         neutral_case(ctx, neutral_structure(ctx, X, X in water_for or high), X)
+    # chains whose amino part has length 1 and 2 (a one-residue chain is both termini), every residue type;
+    # a lone OXT-bearing residue ahead of a peptide under one chain ID; waters trailing a one-residue chain
+    others = [r for r in STANDARD_AA if r != "PRO"]
+    for i, X in enumerate(STANDARD_AA):
+        variant = ("plain", "hidden", "water")[(i + ctx.seed) % 3]
+        neutral_case(ctx, neutral_short_structure(ctx, X, ctx.rng.choice(others), variant), "short:" + X)
     # other force fields must refuse the flags (check_options); counted only
     st = neutral_structure(ctx, "ALA", False)
     res = run_real(ctx, st["pdb"], ["--ff=AMBER", "--neutraln"])
@@ -1093,13 +1159,21 @@ def replay_case(ctx, case):
         after = len(ctx.failures) + sum(ctx.known_hits.values())
         return [({"site": "main.drop_water"}, "still differs")] if after > before else []
     if kind == "neutral":
-        st = {"id": case["structure"], "pdb": case["pdb"], "nterm": case["nterm"], "cterm": case["cterm"]}
+        st = {"id": case["structure"], "pdb": case["pdb"], "nterm": case["nterm"], "cterm": case["cterm"], "by_resseq": case.get("by_resseq", False)}
         base = run_real(ctx, st["pdb"], ["--ff=PARSE", "--keep-chain"])
         extra = {"n": ["--neutraln"], "c": ["--neutralc"], "nc": ["--neutraln", "--neutralc"]}[case["flags"]]
         res = run_real(ctx, st["pdb"], ["--ff=PARSE", "--keep-chain"] + extra)
         if base["pqr_text"] is None or res["pqr_text"] is None:
             return []
-        viol, _ = neutral_compare(st, parse_pqr(base["pqr_text"], False), parse_pqr(res["pqr_text"], False), case["flags"])
+        ba = parse_pqr(base["pqr_text"], False)
+        single = None
+        if case["flags"] == "nc":
+            single = {}
+            for fl, ex in (("n", ["--neutraln"]), ("c", ["--neutralc"])):
+                r1 = run_real(ctx, st["pdb"], ["--ff=PARSE", "--keep-chain"] + ex)
+                if r1["pqr_text"] is not None:
+                    single[fl] = neutral_compare(st, ba, parse_pqr(r1["pqr_text"], False), fl)[1]["delta"]
+        viol, _ = neutral_compare(st, ba, parse_pqr(res["pqr_text"], False), case["flags"], single)
         if "signature" in case:
             viol = [v for v in viol if v[0] == case["signature"]]
         return viol
@@ -1154,7 +1228,9 @@ def run(ctx):
         "subset of {--whitespace,--keep-chain,--include-header,--pdb-output,--apbs-input,--ffout=<scheme>}; full 2^6 lattice on "
         "4 (structure, force field) pairs (all 18 in thorough / after a break), one-option-at-a-time + all six --ffout schemes + "
         "all-on for the other pairs; --drop-water vs text-level deletion of HOH/WAT records x 6 force fields; --neutraln/"
-        "--neutralc/both on [X,GLY,X]+[ALA,X,SER] for all 20 residue types X (PARSE). A case is non-trivial when the base "
+        "--neutralc/both on [X,GLY,X]+[ALA,X,SER] and on chains of length 1 and 2 ([X], [X,Y]; lone OXT-bearing residue "
+        "ahead of a peptide under one chain ID; waters trailing a one-residue chain) for all 20 residue types X (PARSE), each "
+        "change attributed to the flag allowed to cause it. A case is non-trivial when the base "
         "output has >= 1 atom (lattice), when dropping waters changes the output (drop-water), when >= 1 terminus was actually "
         "neutralised (neutral); distinct by (structure, force field, option subset, scheme)."
     )
